@@ -566,12 +566,16 @@ func fairPick(r *run, pf []string, before, after *scheduler.VerifState, pq, sc i
 	for name := range picked {
 		pickedIDs[strconv.Itoa(opIndex(name))] = true
 	}
+	// A task with operations in several invocations can be admissible through more than one of them,
+	// each with its own number of stickiness levels retained: all of them are kept.
 	retained := -1
+	retainedSet := map[int]bool{}
 	if kv["spec"] != "-" {
 		for _, e := range strings.Split(kv["spec"], ",") {
 			p := strings.Split(e, "/")
 			if pickedIDs[p[0]] {
 				retained = atoi(p[1])
+				retainedSet[retained] = true
 			}
 		}
 	}
@@ -629,16 +633,43 @@ func fairPick(r *run, pf []string, before, after *scheduler.VerifState, pq, sc i
 			fairDynCompare(r, c, "pick", upd, nPre+2, root, &qa.RootInvocation)
 		}
 	}
-	// stickiness bookkeeping: levels below `retained` keep their starting time, the others restart now
-	for i, t := range wa.StickinessStartingTimes {
-		want := now
-		if i < retained && i < len(starts) {
-			want = starts[i]
+	// stickiness bookkeeping: levels below `retained` keep their starting time, the others restart now.
+	// The number of levels retained is the one of the model's own walk when that walk ends at an operation
+	// of the task handed out (always, unless the snapshot's heap order is not the one at decision time);
+	// otherwise any admissible way to reach the task must explain the starting times.
+	candidates := retainedSet
+	if p := strings.Split(kv["code"], "/"); len(p) == 2 && pickedIDs[p[0]] {
+		candidates = map[int]bool{atoi(p[1]): true}
+	}
+	fits := func(ret int) (int, int64, bool) {
+		for i, t := range wa.StickinessStartingTimes {
+			want := now
+			if i < ret && i < len(starts) {
+				want = starts[i]
+			}
+			if unixOrZero(t) != want {
+				return i, want, false
+			}
 		}
-		if unixOrZero(t) != want {
-			r.pendf("mismatch", "C04", "Fair correspondence: stickinessRetained", "%s: stickiness starting time of level %d is %d afterwards, the model (levels retained: %d) expects %d", desc, i, unixOrZero(t), retained, want)
-			return
+		return 0, 0, true
+	}
+	ok := false
+	for ret := range candidates {
+		if _, _, f := fits(ret); f {
+			ok = true
 		}
+	}
+	if !ok {
+		var rets []int
+		for ret := range candidates {
+			rets = append(rets, ret)
+		}
+		sort.Ints(rets)
+		i, want, _ := fits(rets[0])
+		r.pendf("mismatch", "C04", "Fair correspondence: stickinessRetained", "%s: stickiness starting time of level %d is %d afterwards, the model (levels retained: %v) expects %d", desc, i, unixOrZero(wa.StickinessStartingTimes[i]), rets, want)
+	}
+	if len(retainedSet) > 1 {
+		fairCount["pick-task-admissible-through-several-operations"]++
 	}
 }
 
